@@ -19,7 +19,7 @@ pub fn meta() -> PropertyMeta {
     PropertyMeta {
         id: "C05",
         level: "fault_enumeration",
-        rule: "base messages of 1..6 units on a fixed tree (commands and queries with generated responses); for EVERY unit position i and EVERY failure kind the variant in which unit i fails is executed: handler-returned error (arbitrary standard / custom / extended), missing parameter (-109), surplus parameter (-108), type / range error of a typed pull, undefined header, non-ASCII byte in the header, non-ASCII byte in the data; plus EVERY response-buffer capacity below the full response length (formatter failure at every write). Oracle by construction: call log = units 0..i (the failing unit entered or not, as the kind dictates) each once in order, return value = the injected / expected error, error hook = exactly that error once; on success every handler once and no hook call. Evaluations count every executed variant. Non-trivial: a base message with at least 3 units (so that failures at positions >= 2 are exercised).",
+        rule: "base messages of 1..6 units on a fixed tree (commands and queries with generated responses); for EVERY unit position i and EVERY failure kind the variant in which unit i fails is executed: handler-returned error (arbitrary standard / custom / extended), missing parameter (-109), surplus parameter (-108), type / range error of a typed pull, undefined header, non-ASCII byte in the header, non-ASCII byte in the data; plus EVERY response-buffer capacity below the full response length (formatter failure at every write). Oracle by construction: call log = units 0..i (the failing unit entered or not, as the kind dictates) each once in order, return value = the injected / expected error, error hook = exactly that error once; on success every handler once and no hook call. Evaluations count every executed variant. PLUS the whole-message differential from bytes (props/execdiff.rs): ALL byte strings up to length 6 (7) over a 16-symbol alphabet on the fixed tree and over the 19-symbol class alphabet on C01's tree, ALL strings of up to 7 (8) tokens, messages of 2^8 / 2^16 +- 1 units and of units with 2^8 / 2^16 +- 1 data elements, grammar-generated messages after 0..2 byte mutations, libFuzzer target c05_exec (thorough); every 'violation' verdict is run a second time with handlers that ignore the error of a parameter pull. The by-construction lexical faults are also run with such handlers. Non-trivial: a base message with at least 3 units (so that failures at positions >= 2 are exercised).",
         assumptions: &["formatter failure is injected through ArrayVec<u8, CAP> capacities 0..=192 (a foreign Formatter cannot be implemented)"],
         run,
     }
